@@ -166,7 +166,12 @@ class Program:
                     pre[rel] = ast.parse(srcs[rel], filename=path)
                 except SyntaxError as exc:
                     raise AnalysisError("cannot parse %s: %s" % (path, exc))
-            self.dissolved = inline.normalise(pre, inline.protected_names())
+            try:
+                self.dissolved = inline.normalise(pre, inline.protected_names())
+            except Exception as exc:     # a defect of the normaliser must never become a verdict: read the tree as written
+                self.dissolved = []
+                self.normalise_error = repr(exc)
+                pre = {}
         for path in files:
             rel = os.path.relpath(path, self.root)[:-3].replace(os.sep, ".")
             if rel.endswith(".__init__"):
